@@ -115,8 +115,10 @@ type pmono struct {
 }
 
 type Poly struct {
-	ms map[string]*pmono
-	iv ival // structural interval (sound over-approximation)
+	ms        map[string]*pmono
+	iv        ival // structural interval (sound over-approximation)
+	ivDone    bool
+	tightDone bool
 }
 
 func monoKey(atoms []*Term) string {
@@ -288,6 +290,7 @@ type intTr struct {
 	divSk     map[*Term]*divDef // IDiv term -> definition
 	skDef     map[*Term]*divDef // skolem var -> definition
 	bvVars    map[*Term]*Term   // Int var -> BV var (for range constraints)
+	facts     map[*Term][]*remFact
 	hypPolys  []hypPoly // assumed  p ≡ 0 (mod m)  or, with m == nil,  p = 0 ; in hypothesis order
 	noElim    bool
 }
@@ -297,11 +300,11 @@ var statModsDropped, statModsKept int64
 func newIntTranslator() *intTr {
 	return &intTr{lazyMemo: map[*Term]*Poly{}, canonMemo: map[*Term]*Poly{}, boolMemo: map[*Term]*Term{},
 		intMemo: map[*Term]*Poly{}, vbound: map[*Term]*big.Int{}, atomIv: map[*Term]ival{},
-		divSk: map[*Term]*divDef{}, skDef: map[*Term]*divDef{}, bvVars: map[*Term]*Term{}}
+		divSk: map[*Term]*divDef{}, skDef: map[*Term]*divDef{}, bvVars: map[*Term]*Term{}, facts: map[*Term][]*remFact{}}
 }
 
-// ivOf tightens the structural interval with the monomial-wise one.
-func (tr *intTr) ivOf(p *Poly) ival {
+// monoIv is the monomial-wise interval of a polynomial.
+func (tr *intTr) monoIv(p *Poly) ival {
 	sum := ivConst(big0)
 	for _, m := range p.ms {
 		t := ivConst(m.coef)
@@ -316,8 +319,66 @@ func (tr *intTr) ivOf(p *Poly) ival {
 			break
 		}
 	}
-	p.iv = ivMeet(p.iv, sum)
+	return sum
+}
+
+// ivOf tightens the structural interval with the monomial-wise one and with the remainder pattern
+// p = k*(R - m*q) + rest  where q = floor(R/m), so that  R - m*q  lies in [0, m-1].
+func (tr *intTr) ivOf(p *Poly) ival {
+	if p.ivDone {
+		return p.iv
+	}
+	p.ivDone = true
+	p.iv = ivMeet(p.iv, tr.monoIv(p))
 	return p.iv
+}
+
+// within decides lo <= p <= hi; when the cheap interval fails it tries the recorded remainder facts.
+func (tr *intTr) within(p *Poly, lo, hi *big.Int) bool {
+	if ivWithin(tr.ivOf(p), lo, hi) {
+		return true
+	}
+	if p.tightDone {
+		return false
+	}
+	p.tightDone = true
+	tries := 0
+	for _, key := range p.sortedKeys() {
+		mo := p.ms[key]
+		if len(mo.atoms) != 1 {
+			continue
+		}
+		fs := tr.facts[mo.atoms[0]]
+		for i := len(fs) - 1; i >= 0 && i >= len(fs)-6; i-- {
+			if tries > 24 {
+				break
+			}
+			tries++
+			fact := fs[i]
+			fm := fact.f.ms[key]
+			if fm == nil {
+				continue
+			}
+			k, rem := new(big.Int), new(big.Int)
+			k.QuoRem(mo.coef, fm.coef, rem)
+			if rem.Sign() != 0 || k.Sign() == 0 {
+				continue
+			}
+			rest := pSub(p, pScale(fact.f, k))
+			if len(rest.ms) >= len(p.ms) {
+				continue // not a simplification
+			}
+			ri := tr.monoIv(rest)
+			if !ri.known() {
+				continue
+			}
+			p.iv = ivMeet(p.iv, ivAdd(ivMul(ivConst(k), kiv(big0, fact.hi)), ri))
+			if ivWithin(p.iv, lo, hi) {
+				return true
+			}
+		}
+	}
+	return ivWithin(p.iv, lo, hi)
 }
 
 // scan extracts variable bounds of the shapes  x <u c,  x <=u c  from hypothesis conjuncts.
@@ -428,8 +489,31 @@ func trailingZeros(t *Term) int {
 	return 0
 }
 
-// divPoly = floor(p / m) for a positive constant m.
+// divPoly = floor(p / m) for a positive constant m; records the remainder fact  0 <= p - m*res <= m-1.
 func (tr *intTr) divPoly(p *Poly, m *big.Int) *Poly {
+	res := tr.divPoly0(p, m)
+	f := pSub(p, pScale(res, m))
+	if _, isC := f.isConst(); !isC {
+		fact := &remFact{f: f, hi: new(big.Int).Sub(m, big1)}
+		for _, mo := range f.ms {
+			if len(mo.atoms) == 1 {
+				a := mo.atoms[0]
+				if len(tr.facts[a]) < 24 {
+					tr.facts[a] = append(tr.facts[a], fact)
+				}
+			}
+		}
+	}
+	return res
+}
+
+type remFact struct {
+	f  *Poly // 0 <= f <= hi
+	hi *big.Int
+}
+
+// divPoly0 does the work.
+func (tr *intTr) divPoly0(p *Poly, m *big.Int) *Poly {
 	if m.Cmp(big1) == 0 {
 		return p
 	}
@@ -535,7 +619,7 @@ func (tr *intTr) divPoly(p *Poly, m *big.Int) *Poly {
 // modPoly = p mod m = p - m*floor(p/m), in [0, m).
 func (tr *intTr) modPoly(p *Poly, m *big.Int) *Poly {
 	mm := new(big.Int).Sub(m, big1)
-	if ivWithin(tr.ivOf(p), big0, mm) {
+	if tr.within(p, big0, mm) {
 		atomic.AddInt64(&statModsDropped, 1)
 		return p
 	}
@@ -578,17 +662,21 @@ func (tr *intTr) itePoly(c *Term, a, b *Poly) *Poly {
 }
 
 func (tr *intTr) signed(t *Term) *Poly {
-	c := tr.canon(t)
 	w := t.sort.W
 	half := pow2(w - 1)
+	// the deferred polynomial already is the signed value when it lies in the signed range
+	if l := tr.lazy(t); tr.within(l, new(big.Int).Neg(half), new(big.Int).Sub(half, big1)) {
+		return l
+	}
+	c := tr.canon(t)
 	iv := tr.ivOf(c)
 	if iv.known() && iv.hi.Cmp(half) < 0 {
 		return c
 	}
-	// c - 2^w * [c >= 2^(w-1)]
-	ge := ILe(IntC(half), polyTerm(c))
-	r := pSub(c, pScale(tr.boolAtom(ge), pow2(w)))
-	r.iv = kiv(new(big.Int).Neg(half), new(big.Int).Sub(half, big1))
+	// c - 2^w * [c >= 2^(w-1)], the indicator written as floor((c + 2^(w-1)) / 2^w) so that it shares
+	// atoms with carries computed the same way by the code
+	r := pSub(c, pScale(tr.divPoly(pAdd(c, pConst(half)), pow2(w)), pow2(w)))
+	r.iv = ivMeet(r.iv, kiv(new(big.Int).Neg(half), new(big.Int).Sub(half, big1)))
 	return r
 }
 
@@ -781,6 +869,8 @@ func (tr *intTr) integer(t *Term) *Poly {
 		r = pAtom(t, tr.atomIv[t])
 	case OBv2Int:
 		r = tr.canon(t.args[0])
+	case OBv2IntS:
+		r = tr.signed(t.args[0])
 	case OIAdd:
 		r = pAdd(tr.integer(t.args[0]), tr.integer(t.args[1]))
 	case OISub:
